@@ -156,7 +156,8 @@ class NetSim(BaseEngine):
                                 'segs': [[pick(rng, (0.0, 0.0, 0.0003, 0.002, 0.05)), pick(rng, (1, 2, 3, 5, 64))]
                                          for _ in range(rng.randint(1, 4))],
                                 'cut': None if rng.random() < 0.5 else rng.randint(0, 20),
-                                'disconnect': rng.random() < 0.6, 'fin_dt': pick(rng, (0.0, 0.001, 0.1))})
+                                'disconnect': rng.random() < 0.6, 'fin_dt': pick(rng, (0.0, 0.001, 0.1)),
+                                'reset': rng.random() < 0.25})
             ops = []
             for _ in range(rng.randint(2, 10)):
                 k = weighted(rng, (('poll', 4), ('iter_pending', 2), ('receive', 2), ('advance', 3), ('iter', 1)))
@@ -505,6 +506,16 @@ class NetSim(BaseEngine):
                 raise Violation('disconnect:not-closed', f'cut {c}: port.closed is False after the disconnect')
             if got and c < len(stream):
                 stats['probe:eof_seen_while_messages_queued'] += 1
+            # the peer only closed its sending direction and keeps reading: a port that reports closed must have
+            # released the connection, i.e. the peer reaches end-of-stream as well
+            while net.next_event_time() is not None:
+                clock.now = max(clock.now, net.next_event_time())
+                net.pump()
+            if not (raw.rx.eof or raw.rx.rst):
+                raise Violation('disconnect:port-closed-but-connection-open',
+                                f'cut {c}: the port consumed the end-of-stream and reports closed, but the peer (which '
+                                f'only shut down its sending side) never sees the connection closed')
+            stats['probe:peer_sees_close_after_eof'] += 1
         sim = clock.now - clock.start
         clock.horizon = float('inf')
         try:
@@ -642,18 +653,22 @@ class NetSim(BaseEngine):
             if cl['disconnect']:
                 t += cl['fin_dt']
 
-                def fin(state=state):
+                def fin(state=state, reset=cl.get('reset', False)):
                     p = state['raw'].tx
-                    p.fin_sent = True
-                    net.deliver(p)
+                    if reset:
+                        net.reset(p)            # connection reset: whatever was not read yet is gone
+                    else:
+                        p.fin_sent = True
+                        net.deliver(p)
                     state['raw'].really_closed = True
                 net.at(t, fin)
-                stats['fault:client_disconnect'] += 1
+                stats['fault:client_reset' if cl.get('reset') else 'fault:client_disconnect'] += 1
                 if cut < len(data):
                     stats['fault:client_disconnect_mid_message'] += 1
             clock.last_event = max(clock.last_event, t)
             streams.append(state)
         got = collections.defaultdict(list)
+        has_reset = any(cl.get('reset') and cl['disconnect'] for cl in plan['clients'])
 
         def take(where, m):
             if not isinstance(m, mido.Message):
@@ -689,8 +704,11 @@ class NetSim(BaseEngine):
             clock.arm()
 
         for op in plan['ops'] + [['advance', 1.0], ['drain'], ['settle'], ['drain'], ['drain'], ['drain'], ['drain']] + \
-                ([['drain']] * 4 if any(cl.get('bulk') for cl in plan['clients']) else []):
+                ([['drain']] * 4 if any(cl.get('bulk') for cl in plan['clients']) else []) + \
+                ([['drain']] * 12 if has_reset else []):
             k = op[0]
+            if has_reset and k in ('receive', 'iter'):
+                k = 'poll'      # with a client that dies by reset every call may fail: only non-blocking calls are used
             stats['steps'] += 1
             if k == 'advance':
                 clock.now += op[1]
@@ -706,12 +724,26 @@ class NetSim(BaseEngine):
             c0, s0 = clock.now, clock.sleep_calls
             arm()
             if k in ('poll', 'iter_pending', 'drain'):
+                exp_err = (OSError,) if has_reset else ()
                 if k == 'poll':
-                    tagr, res = self._guard('server.poll', server.poll)
+                    tagr, res = self._guard('server.poll', server.poll, expect=exp_err)
                     batch = [res] if tagr == 'ok' and res is not None else []
                 else:
-                    tagr, res = self._guard('server.iter_pending', lambda: list(server.iter_pending()))
+                    def pull():
+                        out = []
+                        try:
+                            for m in server.iter_pending():
+                                out.append(m)
+                        except OSError:
+                            if not has_reset:
+                                raise
+                            stats['server_call_failed_after_client_reset'] += 1
+                        return out
+                    tagr, res = self._guard('server.iter_pending', pull)
                     batch = res if tagr == 'ok' else []
+                if tagr == 'raised':
+                    stats['server_call_failed_after_client_reset'] += 1      # may fail; must not lose other messages
+                    continue
                 if tagr == 'never-returned':
                     raise Violation(f'server:{k}-never-returned', f'PortServer.{k}() did not return (non-blocking call)')
                 if clock.now != c0 or clock.sleep_calls != s0:
@@ -750,6 +782,8 @@ class NetSim(BaseEngine):
                 if it is not None and hasattr(it, 'close'):
                     it.close()
         for ci, exp in expected.items():
+            if plan['clients'][ci].get('reset') and plan['clients'][ci]['disconnect']:
+                continue        # a reset discards what was not read yet: only a prefix is required (checked in take)
             if len(got[ci]) != len(exp):
                 raise Violation('server:lost', f'client {ci}: {len(exp)} message(s) arrived completely, '
                                                f'{len(got[ci])} were handed out (after the final drains)')
